@@ -131,3 +131,16 @@ def run(ctx):
         if a == "ok" and not c.cls.endswith("/valid"):
             accepted_mut += 1
     ctx.extra["accepted_non_valid_triples (all also accepted by the RFC verifier)"] = accepted_mut
+    # the Lean RFC 8554 specification (Spec/Rfc8554.lean; proved equal to the verifier model in Props/C02) is executed on the
+    # same triples and compared with the independent Python verifier: this validates the *transcription* of the RFC in Lean
+    if ctx.dv:
+        lines = ["specverify H=%s msg=%s sig=%s pk=%s" % (c.meta["t"][0], hx(c.meta["t"][1]), hx(c.meta["t"][2]), hx(c.meta["t"][3])) for c in cases]
+        spec = ctx.dv.batch(lines)
+        nspec = 0
+        for c, ln, sp in zip(cases, lines, spec):
+            H, m, s, p = c.meta["t"]
+            exp = R.hss_verify(H, m, s, p, ls_of=lib_ls)
+            nspec += 1
+            if (sp.strip() == "ok") != exp:
+                ctx.tie_failures.append("Lean RFC specification and the independent Python RFC verifier disagree on `%s` (Lean: %s, Python: %s)" % (ln[:200], sp, exp))
+        ctx.extra["triples_checked_against_lean_rfc_spec"] = nspec
